@@ -1,6 +1,7 @@
 import Restful.Lemmas.TieImp
 import Restful.Model.Mime
 import Restful.Lemmas.TieImpMime
+import Restful.Lemmas.TieImpTactic
 namespace Restful
 namespace TieImp
 open Imp
@@ -40,6 +41,7 @@ theorem insert_mime (X : ImpGen.Ext) (hgt : ∀ a b : Int, X.float_gt a b = deci
 theorem sorted_mimes (X : ImpGen.Ext) (h : MimeExt X) (accept : Str) :
     ImpGen.sortedMimes X accept = some ((Mime.sortedMimes accept).map genMime) := by
   unfold ImpGen.sortedMimes
+  unfold_gen_helpers keeping ImpGen.insertMime
   simp only [Option.pure_def, Option.bind_eq_bind]
   rw [show ([] : List ImpGen.GoMime) = List.map genMime [] from rfl,
     T15.fold_loop (List.map genMime) Mime.insertValid _ ?hf]
@@ -49,30 +51,59 @@ theorem sorted_mimes (X : ImpGen.Ext) (h : MimeExt X) (accept : Str) :
     rcases hs : Str.split ';' each with _ | ⟨m, params⟩
     · exact absurd hs (Str.split_ne_nil ';' each)
     simp only [T15.at?_zero_cons, T15.sliceFrom_one_cons, Option.bind_some, h.one]
-    rw [T15.param_loop _ ?hp]
-    case hp =>
-      intro param s
-      have hq : ("q".toList : Str) = Mime.qKey := rfl
-      unfold T15.paramStep
-      rcases Str.split '=' param with _ | ⟨k, _ | ⟨v, _ | ⟨w, t⟩⟩⟩
-      · rfl
-      · rfl
-      · simp only [T15.len_two, T15.at?_zero_cons, T15.at?_one_cons, Option.bind_some, h.trim, h.parse, hq, if_true,
-          beq_iff_eq]
-        by_cases hk : Mime.trimOWS k = Mime.qKey
-        · simp only [hk, if_true]
-          cases Mime.parseQ (Mime.trimOWS v) <;> rfl
-        · simp only [hk, if_false]
-      · have : (len (k :: v :: w :: t) == 2) = false := by simp [len]; omega
-        simp only [this]; rfl
-    simp only [Option.bind_some, T15.qvOf, Mime.insertValid, Mime.rangeOf, hs, h.trim]
-    cases Mime.qualityOf params with
-    | none => rfl
-    | some q =>
-      simp only [Option.map_some, if_true]
-      rw [show ({ media := Mime.trimOWS m, quality := ((q : Nat) : Int) } : ImpGen.GoMime)
-        = genMime ⟨Mime.trimOWS m, q⟩ from rfl, insert_mime X h.gt]
-      rfl
+    -- the parameter loop: with `break` and the two variables as its state (`param_loop`), or — as a helper
+    -- `func … (quality, valid)` — with early `return`s (`findSome_loop` over `paramRet`); either way `qvOf params`
+    first
+    | (rw [T15.param_loop _ ?hp]
+       case hp =>
+         intro param s
+         have hq : ("q".toList : Str) = Mime.qKey := rfl
+         unfold T15.paramStep
+         rcases Str.split '=' param with _ | ⟨k, _ | ⟨v, _ | ⟨w, t⟩⟩⟩
+         · rfl
+         · rfl
+         · simp only [T15.len_two, T15.at?_zero_cons, T15.at?_one_cons, Option.bind_some, h.trim, h.parse, hq, if_true,
+             beq_iff_eq]
+           by_cases hk : Mime.trimOWS k = Mime.qKey
+           · simp only [hk, if_true]
+             cases Mime.parseQ (Mime.trimOWS v) <;> rfl
+           · simp only [hk, if_false]
+         · have : (len (k :: v :: w :: t) == 2) = false := by simp [len]; omega
+           simp only [this]; rfl)
+    | (rw [T15.findSome_loop T15.paramRet _ ?hp]
+       case hp =>
+         intro param
+         have hq : ("q".toList : Str) = Mime.qKey := rfl
+         unfold T15.paramRet
+         rcases Str.split '=' param with _ | ⟨k, _ | ⟨v, _ | ⟨w, t⟩⟩⟩
+         · rfl
+         · rfl
+         · simp only [T15.len_two, T15.at?_zero_cons, T15.at?_one_cons, Option.bind_some, h.trim, h.parse, hq, if_true,
+             beq_iff_eq]
+           by_cases hk : Mime.trimOWS k = Mime.qKey
+           · simp only [hk, if_true]
+             cases Mime.parseQ (Mime.trimOWS v) <;> rfl
+           · simp only [hk, if_false]
+         · have : (len (k :: v :: w :: t) == 2) = false := by simp [len]; omega
+           simp only [this]; rfl
+       have hpr := T15.paramRet_eq params
+       cases hfs : params.findSome? T15.paramRet <;>
+         (rw [hfs] at hpr
+          simp only [Option.getD_none, Option.getD_some] at hpr
+          first
+          | (show ((some ((1000 : Int), true)).bind _) = _
+             rw [hpr])
+          | (show ((some _).bind _) = _
+             rw [hpr])))
+    all_goals
+      simp only [Option.bind_some, T15.qvOf, Mime.insertValid, Mime.rangeOf, hs, h.trim]
+      cases Mime.qualityOf params with
+      | none => rfl
+      | some q =>
+        simp only [Option.map_some, if_true]
+        rw [show ({ media := Mime.trimOWS m, quality := ((q : Nat) : Int) } : ImpGen.GoMime)
+          = genMime ⟨Mime.trimOWS m, q⟩ from rfl, insert_mime X h.gt]
+        rfl
 
 /-- response.go `Response.EntityWriter`: the negotiation of the written entity's media type, with the
     registry lookup `accessorAt` uninterpreted in the translation and instantiated by the model's (`hacc`;
